@@ -38,11 +38,16 @@ type c03Sys struct {
 	// of the hand-over for JOINS; after a leave it promises the last acknowledged value once the
 	// cluster has stabilised. The oracle follows that split.
 	Left bool
+	// Exp: virtual-clock deadline (ns) of keys written with an expiry (cleared by a plain Put / Delete)
+	Exp map[string]int64
+	// Expired: keys whose last write ran out (as opposed to keys removed by Delete): they must read
+	// not-found; that no copy of them is stored anywhere is promised for Delete only
+	Expired map[string]bool
 }
 
 func c03New(p *c03Params) *c03Sys {
 	sched.ResetClock()
-	s := &c03Sys{P: p, Cl: simcluster.New(p.Opts), Ref: map[string]string{}, Safe: map[string]bool{}}
+	s := &c03Sys{P: p, Cl: simcluster.New(p.Opts), Ref: map[string]string{}, Safe: map[string]bool{}, Exp: map[string]int64{}, Expired: map[string]bool{}}
 	// three keys in at least two partitions, fixed names (member names are fixed, so placement is
 	// the same in every replay)
 	p0 := s.Cl.PartID("d", "k0")
@@ -131,7 +136,7 @@ func (s *c03Sys) Events() []clustermc.Ev {
 	for i := 0; i < n; i++ {
 		evs = append(evs, clustermc.Ev{K: "balance", A: i})
 	}
-	evs = append(evs, clustermc.Ev{K: "compact"}, clustermc.Ev{K: "janitor"})
+	evs = append(evs, clustermc.Ev{K: "compact"}, clustermc.Ev{K: "janitor"}, clustermc.Ev{K: "put-ttl", A: 2}, clustermc.Ev{K: "tick-evict"})
 	if s.P.Leaves && s.backupsComplete() {
 		evs = append(evs, clustermc.Ev{K: "leave", A: 1}, clustermc.Ev{K: "leave", A: 0})
 	}
@@ -149,6 +154,10 @@ func (s *c03Sys) describe(e clustermc.Ev) string {
 		return fmt.Sprintf("leave(%s)", via[e.A])
 	case "push":
 		return "routing-push"
+	case "put-ttl":
+		return fmt.Sprintf("put(key#%d, PX 5ms via oldest member)", e.A)
+	case "tick-evict":
+		return "10ms pass; eviction pass on every member (also on previous owners)"
 	}
 	return e.K
 }
@@ -168,6 +177,8 @@ func (s *c03Sys) Apply(e clustermc.Ev) []clustermc.Fail {
 		}
 		s.Ref[s.Keys[e.A]] = v
 		s.Safe[s.Keys[e.A]] = len(s.Cl.Live()) >= s.P.Opts.Replicas
+		delete(s.Exp, s.Keys[e.A])
+		delete(s.Expired, s.Keys[e.A])
 	case "del":
 		kv := s.kv(e.B)
 		if kv == nil {
@@ -178,6 +189,8 @@ func (s *c03Sys) Apply(e clustermc.Ev) []clustermc.Fail {
 			return []clustermc.Fail{{Key: "del-failed/" + strings.SplitN(r.Err, ":", 2)[0], What: fmt.Sprintf("Delete(%s) failed with %q", s.Keys[e.A], r.Err)}}
 		}
 		delete(s.Ref, s.Keys[e.A])
+		delete(s.Exp, s.Keys[e.A])
+		delete(s.Expired, s.Keys[e.A])
 	case "join":
 		idx := 0
 		for _, m := range s.Cl.Members {
@@ -205,6 +218,39 @@ func (s *c03Sys) Apply(e clustermc.Ev) []clustermc.Fail {
 	case "janitor":
 		for _, m := range s.Cl.Live() {
 			m.DB.VerifDMap().VerifJanitor()
+		}
+	case "put-ttl":
+		kv := s.kv(0)
+		if kv == nil {
+			return []clustermc.Fail{{Key: "client", What: "cannot open the DMap on a live member"}}
+		}
+		s.Ver++
+		v := fmt.Sprintf("v%d", s.Ver)
+		k := s.Keys[e.A]
+		r := kv.Put(k, []byte(v), simcluster.PutOpt{PX: 5 * time.Millisecond})
+		if r.Err != "" {
+			return []clustermc.Fail{{Key: "put-failed/" + strings.SplitN(r.Err, ":", 2)[0], What: fmt.Sprintf("Put(%s, PX) failed with %q while membership is changing but every member is healthy", k, r.Err)}}
+		}
+		s.Ref[k] = v
+		s.Safe[k] = len(s.Cl.Live()) >= s.P.Opts.Replicas
+		s.Exp[k] = sched.PeekNS() + int64(5*time.Millisecond)
+		delete(s.Expired, k)
+	case "tick-evict":
+		// 10 ms pass (every key written with the 5 ms expiry is past its deadline), then the eviction
+		// worker body runs on every member for every partition - also on a previous owner that still
+		// holds the fragment
+		sched.AdvanceNS(int64(10 * time.Millisecond))
+		for k := range s.Exp {
+			delete(s.Ref, k)
+			delete(s.Exp, k)
+			s.Expired[k] = true
+		}
+		for pass := 0; pass < 3; pass++ {
+			for _, m := range s.Cl.Live() {
+				for p := uint64(0); p < s.Cl.O.Partitions; p++ {
+					m.DB.VerifDMap().VerifEvictAll(p)
+				}
+			}
 		}
 	case "leave":
 		s.Cl.Leave(s.member(e.A))
@@ -271,6 +317,9 @@ func (s *c03Sys) Check() []clustermc.Fail {
 		}
 		prim, back := 0, 0
 		for _, c := range s.Cl.Copies("d", k) {
+			if want == "" && (s.Expired[k] || (c.TTL != 0 && c.TTL <= sched.PeekNS()/1e6)) {
+				continue // the key ran out (it was not deleted): it must read not-found, which is checked above
+			}
 			if want == "" {
 				fs = append(fs, clustermc.Fail{Key: "after-stabilisation/deleted-key-stored", What: fmt.Sprintf("key %s was deleted but member %s still stores a %s copy %q", k, c.Member, c.Kind, c.Value)})
 				continue
@@ -344,7 +393,14 @@ func (s *c03Sys) Canon() string {
 		for _, c := range cps {
 			fmt.Fprintf(&b, "%s%s%d,", c.Member[len(c.Member)-1:], c.Kind[:1], rank[string(c.Value)])
 		}
-		fmt.Fprintf(&b, "]s%v;", s.Safe[k])
+		fmt.Fprintf(&b, "]s%v", s.Safe[k])
+		if _, ok := s.Exp[k]; ok {
+			b.WriteString("ttl")
+		}
+		if s.Expired[k] {
+			b.WriteString("x")
+		}
+		b.WriteByte(';')
 	}
 	fmt.Fprintf(&b, "left%v;", s.Left)
 	// table counts shape what one balancer pass moves
